@@ -423,6 +423,25 @@ func runC10(c *Ctx) {
 			c.Count("kind:" + vs[j].kind)
 		}
 		var ch data.Chunk
+		// the in-memory writer on storage that was used before (a Chunk is reused after Reset and works
+		// as a queue): what an earlier use left in the backing array must not show in the encoding
+		switch r.Intn(5) {
+		case 0:
+			ch.Write(bytes.Repeat([]byte{0xFF}, 64+r.Intn(5000)))
+			ch.Reset()
+			c.Count("chunk:reset-reuse")
+		case 1:
+			g := bytes.Repeat([]byte{0xA5}, 64+r.Intn(5000))
+			ch.Write(g)
+			for k := 0; k < len(g); {
+				n, _ := ch.Read(make([]byte, 1+r.Intn(len(g))))
+				if n == 0 {
+					break
+				}
+				k += n
+			}
+			c.Count("chunk:queue-reuse")
+		}
 		for _, v := range vs {
 			if err := writeTV(&ch, v); err != nil {
 				c.Fail("write", "chunk-writer-error", "chunk writer returned "+err.Error(), toks)
